@@ -446,7 +446,9 @@ def build_prog(ch, tier, case, cell=None):
 
 
 def build_case(ch, tier, cells=None):
-    case = {'le': ch.bool(), 'strs': [b'str0', b'', b's' * 66], 'lstrs': [b'/cwd', b'main.c', b'', b'l' * 64]}
+    # the two string sections are separate number spaces: the pools are laid out so that the SAME offsets (1, 6) designate different
+    # strings in .debug_str ('str0', '') and in .debug_line_str ('/cwd', 'x')
+    case = {'le': ch.bool(), 'strs': [b'str0', b'', b's' * 66], 'lstrs': [b'', b'/cwd', b'x', b'main.c', b'l' * 64]}
     if ch.bool(0.3):
         case['sup_strs'] = [b'/sup/dir', b'sup_file.c', b'', b'S' * 65]      # a supplementary object file is attached
     n = len(cells) if cells else ch.choice([1, 1, 2, 3, 4])
@@ -474,7 +476,7 @@ def sweep(tier):
                     for (min_inst, max_ops, line_base, line_range, opcode_base) in ((1, 1, -5, 14, 13), (4, 1, -3, 12, 10), (2, 4, -1, 4, 13), (1, 3, 0, 1, 16), (8, 8, -128, 255, 13)):
                         k += 1
                         ch = RndChooser(50000 + k)
-                        case = {'le': le, 'strs': [b'str0', b''], 'lstrs': [b'/cwd', b'main.c']}
+                        case = {'le': le, 'strs': [b'str0', b''], 'lstrs': [b'', b'/cwd', b'x', b'main.c']}
                         p = build_prog(ch, tier, case, (ver, fmt, A))
                         if ver < 4:
                             max_ops = 1
